@@ -254,6 +254,14 @@ def recsMatch (model impl : List Rec) : Bool :=
   model.length == impl.length && (model.zip impl).all fun (a, b) =>
     a.length == b.length && (a.zip b).all fun (p, q) => p.1 == q.1 && valMatches p.2 q.2
 
+/-- `pctidx <p> <n> | <index>`: the non-interpolated percentile index. -/
+def pctidx : Handler
+  | [ps, ns], _ => do
+    let pb ← ParseFloat.parse (ps.toList.map Char.toNat)
+    let n ← ns.toNat?
+    pure { model := toString (percentileIndexB pb n) }
+  | _, _ => none
+
 /-- `verbs <argv> <records> | <records out>` -/
 def verbs : Handler
   | [av, rsS], impl => do
